@@ -32,4 +32,10 @@ TEXTS = {
         "note": "The rule table is hand-transcribed from the statement; which violations are 'certain to be reported' follows the statement's scoping (one element / fields of one struct / variants of one enum). One listed known finding (default after from_ident) is attributed by pattern.",
         "technique": "exhaustive enumeration of small option tuples + grammar-based property testing against a rule-table oracle",
     },
+    "C19": {
+        "level": "Constructive generated-input search: types built from 30 syn::Type forms (depth<=5) with parameters and lifetimes planted at labelled use / non-use / qualified-self positions, random query sets with decoys, both purposes, every carrier (Type, Field, Fields, Data, Vec, iterator, ast::Fields); and generic receiver declarations for all six derives whose emitted impl is parsed and compared with the declaration plus the FromMeta bound on exactly the parameters used by parsed fields.",
+        "ref": "DESIGN.md section 3 C19",
+        "note": "Expected sets are known by construction; token comparison of generics/where-clause after canonical printing.",
+        "technique": "property-based testing with planted ground truth (proptest bytes -> type grammar)",
+    },
 }
